@@ -26,8 +26,13 @@ if style == "module":
     import joblib
     from joblib import Memory
     import c12pmod
-    c = Memory(os.path.join(d, "cache"), verbose=0).cache(c12pmod.f)
-    vals = [c(a) for a in cfg["args"]]
+    if cfg.get("which"):
+        # one function object cached by two Memory objects on two directories
+        cs = [Memory(os.path.join(d, "cache"), verbose=0).cache(c12pmod.f), Memory(os.path.join(d, "cache_b"), verbose=0).cache(c12pmod.f)]
+        vals = [cs[w](a) for w, a in zip(cfg["which"], cfg["args"])]
+    else:
+        c = Memory(os.path.join(d, "cache"), verbose=0).cache(c12pmod.f)
+        vals = [c(a) for a in cfg["args"]]
     json.dump(dict(values=vals, joblib=joblib.__file__), open(sys.argv[2], "w"))
 else:
     # a __main__ script that is rewritten and re-run
